@@ -104,7 +104,10 @@ func (f *c37Fails) report(r *vk.Run) {
 	sort.Strings(classes)
 	for _, c := range classes {
 		b := f.best[c]
-		r.Violation(c37P, b.key, fmt.Sprintf("%s (smallest of %d failing cases of class %q)", b.desc, f.count[c], c), b.replay)
+		// key = class + number of failing cases of the class in this tier's domain +
+		// the smallest one: any change of the failing set changes the key.
+		key := strings.Replace(b.key, ": ", fmt.Sprintf(" x%d, smallest: ", f.count[c]), 1)
+		r.Violation(c37P, key, fmt.Sprintf("%s (smallest of %d failing cases of class %q in the %s tier domain)", b.desc, f.count[c], c, r.Tier()), b.replay)
 	}
 }
 
@@ -272,6 +275,18 @@ func c37SigEq(a, b []c37Ent) (bool, string) {
 	for i := range a {
 		if a[i] != b[i] {
 			return false, fmt.Sprintf("entry %d differs: {hash %d key %s w %d} vs {hash %d key %s w %d}", i, a[i].hash, a[i].key, a[i].weight, b[i].hash, b[i].key, b[i].weight)
+		}
+	}
+	return true, ""
+}
+
+func c37RingEq(a []c37Ent, rg *ring) (bool, string) {
+	if len(a) != len(rg.items) {
+		return false, fmt.Sprintf("ring sizes differ: %d vs %d", len(a), len(rg.items))
+	}
+	for i, it := range rg.items {
+		if a[i].hash != it.hash || a[i].key != it.hashKey || a[i].weight != it.weight {
+			return false, fmt.Sprintf("entry %d differs: {hash %d key %s w %d} vs {hash %d key %s w %d}", i, a[i].hash, a[i].key, a[i].weight, it.hash, it.hashKey, it.weight)
 		}
 	}
 	return true, ""
@@ -660,6 +675,10 @@ func c37SizeClass(N int, lo, hi uint64, n int) string {
 	switch {
 	case uint64(n) > hi:
 		return "n>max"
+	case uint64(N) > hi:
+		return "N>max"
+	case uint64(N) < lo:
+		return "N<min"
 	case lo == hi:
 		return "N=min=max"
 	case uint64(N) == lo:
@@ -714,6 +733,10 @@ func c37RingSet(ws []uint32, pairs [][2]uint64, allPerms, bigPerms [][]int, balP
 		return
 	}
 	id := c37Identity(n)
+	var sumW uint64
+	for _, w := range ws {
+		sumW += uint64(w)
+	}
 	for _, pr := range pairs {
 		lo, hi := pr[0], pr[1]
 		caseStr := fmt.Sprintf("weights=%s min=%d max=%d", c37WS(ws), lo, hi)
@@ -776,7 +799,7 @@ func c37RingSet(ws []uint32, pairs [][2]uint64, allPerms, bigPerms [][]int, balP
 				fl.add("ring-panic", c37Ord(ws, lo, hi, uint64(pi)), caseStr, fmt.Sprintf("newRing(%s, insertion order %v) panicked: %v", caseStr, perm, pan), rep)
 				continue
 			}
-			if eq, why := c37SigEq(sig0, c37Sig(rp)); !eq {
+			if eq, why := c37RingEq(sig0, rp); !eq {
 				fl.add("ring-order-dependence", c37Ord(ws, lo, hi, uint64(pi)), caseStr, fmt.Sprintf("%s: ring built after inserting endpoints in order %v differs from the ring for order %v: %s", caseStr, perm, id, why), rep)
 			}
 		}
@@ -784,7 +807,9 @@ func c37RingSet(ws []uint32, pairs [][2]uint64, allPerms, bigPerms [][]int, balP
 		if balPair(lo, hi) {
 			for pi, perm := range perms {
 				for mi, mode := range c37BalModes {
-					if mode == "shrink" && pi > 0 && n == 1 {
+					if mode == "shrink" && sumW+5 > math.MaxUint32 {
+						// the intermediate set (with the extra endpoint of weight 5)
+						// would leave the domain in which the weight sum fits uint32
 						continue
 					}
 					sig, err := c37BalancerRun(c37BalSteps(mode, ws, perm), lo, hi)
@@ -808,10 +833,20 @@ func TestVerif_C37_Ring(t *testing.T) {
 	defer r.Finish()
 	// many short-lived ring entries, tiny live heap: keep the collector from
 	// running every few MB
-	defer debug.SetGCPercent(debug.SetGCPercent(1600))
+	defer debug.SetGCPercent(debug.SetGCPercent(400))
 	fl := c37NewFails()
 	st := &c37RingStats{outcomes: map[string]int64{}}
 	allPairs := c37Pairs(c37Sizes)
+	if !r.Thorough() && r.ReplayFile() == "" {
+		// quick: the 15 pairs with max<=100 and 5 of the 13 pairs with max>=1024
+		var q [][2]uint64
+		for _, pr := range allPairs {
+			if pr[1] <= 100 || pr == [2]uint64{1, 1024} || pr == [2]uint64{100, 1024} || pr == [2]uint64{1024, 1024} || pr == [2]uint64{1024, 4096} || pr == [2]uint64{4096, 4096} {
+				q = append(q, pr)
+			}
+		}
+		allPairs = q
+	}
 
 	if r.ReplayFile() != "" {
 		var c c37Case
@@ -889,7 +924,11 @@ func TestVerif_C37_Ring(t *testing.T) {
 		}
 		perms := [][]int{c37Identity(n), rev}
 		for _, ws := range c37Tuples(wideMenus[n], n) {
-			jobs = append(jobs, job{ws, perms, perms, allPairs, none})
+			big := perms
+			if !r.Thorough() {
+				big = perms[:1]
+			}
+			jobs = append(jobs, job{ws, perms, big, allPairs, none})
 			nWide++
 		}
 	}
@@ -908,6 +947,9 @@ func TestVerif_C37_Ring(t *testing.T) {
 		}
 		j := jobs[order[k]]
 		t0 := time.Now()
+		if os.Getenv("C37_PROGRESS") != "" {
+			fmt.Fprintf(os.Stderr, "c37 start %d ws=%v\n", k, j.ws)
+		}
 		c37RingSet(j.ws, j.pairs, j.perms, j.big, j.bal, fl, st)
 		if os.Getenv("C37_PROGRESS") != "" { // debugging aid only; never influences the result
 			fmt.Fprintf(os.Stderr, "c37 job %d/%d n=%d ws=%v %.2fs\n", k, len(order), len(j.ws), j.ws, time.Since(t0).Seconds())
